@@ -66,19 +66,25 @@ def valid_kind(closed: typing.Any, expired: typing.Any, idle: typing.Any, avail:
     return True
 
 
-def _mk(flavour: str, N: int, K: int, new_avail: typing.Any) -> typing.Any:
-    mod = apool if flavour == "async" else spool
-    base = mod.AsyncConnectionPool if flavour == "async" else mod.ConnectionPool
-    created: list[StubConn] = []
-
+def _pool_class(base: typing.Any) -> typing.Any:
     class Pool(base):  # type: ignore[misc, valid-type]
         def create_connection(self, origin: httpcore.Origin) -> typing.Any:
-            c = StubConn(f"new{len(created)}", origin, False, False, False, new_avail, created=True)
-            created.append(c)
+            c = StubConn(f"new{len(self.created)}", origin, False, False, False, self.new_avail, created=True)
+            self.created.append(c)
             return c
 
-    pool = Pool(max_connections=N, max_keepalive_connections=K)
-    return mod, pool, created
+    return Pool
+
+
+_POOLS = {"async": _pool_class(apool.AsyncConnectionPool), "sync": _pool_class(spool.ConnectionPool)}
+
+
+def _mk(flavour: str, N: int, K: int, new_avail: typing.Any) -> typing.Any:
+    mod = apool if flavour == "async" else spool
+    pool = _POOLS[flavour](max_connections=N, max_keepalive_connections=K)
+    pool.created = []
+    pool.new_avail = new_avail
+    return mod, pool, pool.created
 
 
 def _origin(port: typing.Any) -> httpcore.Origin:
@@ -87,7 +93,7 @@ def _origin(port: typing.Any) -> httpcore.Origin:
 
 def _step(n: int, m: int, flavour: str, N: int, K: int, new_avail: bool,
           flags: list[typing.Any], cports: list[typing.Any], queued: list[typing.Any],
-          rports: list[typing.Any]) -> None:
+          rports: list[typing.Any], uses: list[typing.Any]) -> None:
     mod, pool, created = _mk(flavour, N, K, new_avail)
     conns = []
     for i in range(n):
@@ -101,9 +107,16 @@ def _step(n: int, m: int, flavour: str, N: int, K: int, new_avail: bool,
         req = httpcore.Request(b"GET", httpcore.URL(scheme=b"http", host=b"a.test", port=rports[j], target=b"/"))
         pr = PR(req)
         if not queued[j]:
+            # an assigned request refers to any of the pooled connections or
+            # to one that is no longer pooled
             pr.connection = busy
+            for i in range(n):
+                if uses[j] == i:
+                    pr.connection = conns[i]
         reqs.append(pr)
     pool._requests = list(reqs)
+    held0 = [pr.connection for pr in reqs]
+    referenced = lambda c: any(c is x for x in held0)  # noqa: E731
 
     # ---- the real code ----
     try:
@@ -142,7 +155,12 @@ def _step(n: int, m: int, flavour: str, N: int, K: int, new_avail: bool,
             P.check(len(L1) >= N, "queued=>pool-full", "step:queued-but-room", prop="C07")
             P.check(not idle, "queued=>nothing-evictable", "step:queued-but-evictable", prop="C07")
         if not queued[j]:
-            P.check(pr.connection is busy, "assigned-request-untouched", "step:reassigned", prop="C07")
+            P.check(pr.connection is held0[j], "assigned-request-untouched", "step:reassigned", prop="C07")
+    # a connection that no request refers to and that is not idle can never
+    # be released by a response close: it must not keep its place
+    for c in L1:
+        if not c.is_idle() and not c.created:
+            P.check(referenced(c), "no-abandoned-connection-kept", "step:abandoned-kept", prop="C07")
     # requests are scanned in arrival order: a later queued request is not
     # served by creating a connection while an earlier one (same need) waits
     # ---------------------------------------------------------- C01 / C10
@@ -186,9 +204,14 @@ def _step(n: int, m: int, flavour: str, N: int, K: int, new_avail: bool,
     # a failed connection attempt that is still listed reports idle too)
     I0 = len([c for c in L0 if c.is_idle()])
     surplus_allowed = I0 - K_eff if I0 > K_eff else 0
-    closed_idle_unexpired = [c for c in closing if not c.has_expired()]
-    for c in closed_idle_unexpired:
-        P.check(c.is_idle(), "only-idle-or-expired-closed", "step:closed-busy-connection", prop="C09")
+    for c in closing:
+        if not c.has_expired() and not c.is_idle():
+            # a busy connection is closed only when no request refers to it
+            # (it was left behind by a cancelled request)
+            P.cover("abandoned-closed")
+            for prop in ("C04", "C09"):
+                P.check(not referenced(c), "busy-closed-only-if-abandoned", "step:closed-busy-connection", prop=prop)
+    closed_idle_unexpired = [c for c in closing if not c.has_expired() and c.is_idle()]
     if closed_idle_unexpired:
         P.cover("idle-closed")
     P.check(
@@ -254,29 +277,40 @@ def _deep(shapes: typing.Sequence[tuple[int, int]]) -> list[dict]:
     return out
 
 
+def _fl(shards: list[dict], flavour: str) -> list[dict]:
+    return [s for s in shards if s["flavour"] == flavour]
+
+
+# Quick tier: both variants on the small shapes, the larger shapes on one
+# variant only (the function is the same text in both modules: C18 pairing
+# check); the thorough tier runs every shape on both.
+_Q_SMALL = _sh(((2, 1), (1, 2)))
+_Q22A, _Q22S = _fl(_sh(((2, 2),)), "async"), _fl(_sh(((2, 2),)), "sync")
+
+
 @harness(
     "C04", "poolstep",
-    quick=_sh(((2, 1), (1, 2), (2, 2), (1, 3))),
+    quick=_Q_SMALL + _Q22A + _fl(_sh(((1, 3),)), "sync"),
     thorough=_sh(((2, 1), (1, 2), (2, 2), (1, 3))) + _deep(((3, 1),))
     + [s for s in _deep(((3, 2),)) if s["flavour"] == "async" and "new_avail == False" in s["_pre"]],
     per_prop={
         # the deep shapes (3,1)/(3,2) are explored under C04 only; the other
         # properties' clauses are checked on shapes up to (2,2)/(1,3)
-        "C01": {"quick": _sh(((2, 1), (1, 2))), "thorough": _sh(((2, 1), (1, 2), (2, 2), (1, 3)))},
-        "C10": {"quick": _sh(((2, 1), (1, 2))), "thorough": _sh(((2, 1), (1, 2), (2, 2), (1, 3)))},
-        "C07": {"quick": _sh(((2, 1), (1, 2), (2, 2))), "thorough": _sh(((2, 1), (1, 2), (2, 2), (1, 3))) + _deep(((3, 1),))[::5]},
-        "C09": {"quick": _sh(((2, 1), (2, 2))), "thorough": _sh(((2, 1), (1, 2), (2, 2), (1, 3))) + _deep(((3, 1),))[::5]},
+        "C01": {"quick": _Q_SMALL, "thorough": _sh(((2, 1), (1, 2), (2, 2), (1, 3)))},
+        "C10": {"quick": _Q_SMALL, "thorough": _sh(((2, 1), (1, 2), (2, 2), (1, 3)))},
+        "C07": {"quick": _Q_SMALL + _Q22A, "thorough": _sh(((2, 1), (1, 2), (2, 2), (1, 3))) + _deep(((3, 1),))[::5]},
+        "C09": {"quick": _Q_SMALL + _Q22S, "thorough": _sh(((2, 1), (1, 2), (2, 2), (1, 3))) + _deep(((3, 1),))[::5]},
         # C08(c): atomic-step invariants of the step as the sync pool runs it (under its lock)
-        "C08": {"quick": [s for s in _sh(((2, 2),)) if s["flavour"] == "sync"],
+        "C08": {"quick": _fl(_sh(((1, 2), (2, 2))), "sync"),
                 "thorough": [s for s in _sh(((2, 2), (1, 3))) + _deep(((3, 1),))[::3] if s["flavour"] == "sync"]},
     },
     example=dict(N=2, K=1, new_avail=False,
                  a0=False, b0=False, c0=True, d0=True, a1=False, b1=False, c1=False, d1=False,
                  a2=False, b2=False, c2=False, d2=False,
-                 p0=80, p1=81, p2=80, q0=True, q1=True, q2=False, r0=80, r1=82, r2=80),
-    require=("assigned", "left-queued", "closing", "created=1", "created=0", "evict-for-request", "idle-closed"),
+                 p0=80, p1=81, p2=80, q0=True, q1=True, q2=False, r0=80, r1=82, r2=80, u0=0, u1=0, u2=3),
+    require=("assigned", "left-queued", "closing", "created=1", "created=0", "evict-for-request", "idle-closed", "abandoned-closed"),
     timeout={"quick": 300, "thorough": 2400},
-    symbolic="N, K (unbounded); per connection 4 predicate booleans + port (unbounded); per request queued flag + port; whether a new connection multiplexes",
+    symbolic="N, K (unbounded); per connection 4 predicate booleans + port (unbounded); per request queued flag + port + which connection (pooled or not) an assigned request refers to; whether a new connection multiplexes",
     bounds=BOUNDS, outside=OUTSIDE, stubs=STUBS,
     also=("C01", "C07", "C08", "C09", "C10"),
 )
@@ -286,10 +320,12 @@ def poolstep(N: int, K: int, new_avail: bool,
              a2: bool, b2: bool, c2: bool, d2: bool,
              p0: int, p1: int, p2: int,
              q0: bool, q1: bool, q2: bool,
-             r0: int, r1: int, r2: int) -> None:
+             r0: int, r1: int, r2: int,
+             u0: int, u1: int, u2: int) -> None:
     """
     pre: N >= 1 and K >= 0
     pre: p0 >= 1 and p1 >= 1 and p2 >= 1 and r0 >= 1 and r1 >= 1 and r2 >= 1
+    pre: 0 <= u0 <= 3 and 0 <= u1 <= 3 and 0 <= u2 <= 3
     post: _
     """
     n, m = shard("n", 2), shard("m", 2)
@@ -299,4 +335,4 @@ def poolstep(N: int, K: int, new_avail: bool,
     for i in range(n):
         if not valid_kind(*flags[4 * i : 4 * i + 4]):
             return
-    _step(n, m, shard("flavour", "async"), N, K, new_avail, flags, [p0, p1, p2], [q0, q1, q2], [r0, r1, r2])
+    _step(n, m, shard("flavour", "async"), N, K, new_avail, flags, [p0, p1, p2], [q0, q1, q2], [r0, r1, r2], [u0, u1, u2])
